@@ -130,7 +130,9 @@ def answerPins (ws : List String) : String :=
          ("mar", rtAgrees o.mar same), ("snap", rtAgrees o.snap same), ("start", rtAgrees o.start same),
          ("marx", match marx with
             | none => true
-            | some r => nodupCids r.pins && r.pins.all (fun p => src.contains p) && (!r.ok || r.pins.length ≤ src.length))]
+            -- `unmarshalCut` for some arrangement and some k (the cut may also fall on an entry boundary: ok)
+            | some r => (!r.ok && r.pins == fromList i.prior) ||
+                        (sortedMap r.pins && r.pins.all (fun p => src.contains p) && (!r.ok || r.pins.length ≤ src.length)))]
       if !allHold checks then
         "diff " ++ failedNames checks ++ " arm=" ++ arm ++ " model=src=" ++ showPins src ++ " exp=" ++ showRes (modelExp i src)
       else "ok arm=" ++ arm ++ (if !wf || (i.gen.isEmpty && i.prior.isEmpty) then " trivial" else "")
